@@ -422,7 +422,9 @@ type Symtab struct {
 }
 
 func NewSymtab() *Symtab {
-	return &Symtab{decls: map[string]Decl{}, defs: map[string]string{}, deps: map[string][]string{}}
+	st := &Symtab{decls: map[string]Decl{}, defs: map[string]string{}, deps: map[string][]string{}}
+	registerCounting(st)
+	return st
 }
 
 func (st *Symtab) Fresh(prefix, sort string) Term {
